@@ -153,12 +153,39 @@ def classify(pid, rc, out, timed_out, logf, res, stage_name, replay_hint=None):
             res.undecided.append("%s: out of memory (see %s)" % (stage_name, logf))
             return
     m = re.findall(r"VERIF-VIOLATION property=%s case=(\S+)" % pid, out)
-    if m:
+    if m and m[-1] != "fuzz":
         res.violations.append(m[-1])
+    elif not m and crash_case(pid, out, res):
+        pass
     else:
         # the test binary failed without a marker (crash of the code under test in a
         # goroutine, rapid "flaky"/generator failure...): the log is the replay artefact
         res.violations.append(replay_hint or logf)
+
+
+def crash_case(pid, out, res):
+    """A worker that died from a fatal runtime error leaves the case it was running in a
+    crash file (hx.EnableCrashFile); that file becomes the replay artefact."""
+    if "fatal error:" not in out and "panic:" not in out and "signal:" not in out:
+        return False
+    rundir = CURRENT_RUNDIR[0]
+    for f in sorted(glob.glob(os.path.join(rundir, "crash-*.case.json")), key=os.path.getmtime, reverse=True):
+        raw = open(f, "rb").read().split(b"\0", 1)[0]
+        if not raw:
+            continue
+        try:
+            json.loads(raw)
+        except Exception:
+            continue
+        dst = os.path.join(REPLAYS, "%s-crash-%d.case.json" % (pid, int(time.time())))
+        with open(dst, "wb") as o:
+            o.write(raw)
+        res.violations.append(dst)
+        return True
+    return False
+
+
+CURRENT_RUNDIR = [None]
 
 
 def run_check(pid, tier, seed, replay):
@@ -166,7 +193,11 @@ def run_check(pid, tier, seed, replay):
     cfg = PROPS[pid]
     res = Outcome()
     rundir = os.path.join(RUNS, "%s-%s-%d-%d" % (pid, tier, seed, os.getpid()))
+    CURRENT_RUNDIR[0] = rundir
     shutil.rmtree(rundir, ignore_errors=True)
+    if not replay:
+        for old in glob.glob(os.path.join(REPLAYS, "%s-*" % pid)):
+            os.remove(old)  # stale artefacts of earlier runs would be confusing
     evdir = os.path.join(rundir, "ev")
     os.makedirs(evdir)
     os.makedirs(REPLAYS, exist_ok=True)
@@ -342,10 +373,9 @@ def finish(pid, tier, seed, res, evmerge, evdir, rundir, t0, stages_run, cfg, re
     if status == 0:
         print("OK property=%s tier=%s seed=%d evaluations=%d distinct_nontrivial=%d wall=%.1fs" %
               (pid, tier, seed, m["evaluations"], m["distinct_nontrivial"], wall))
+    if os.environ.get("VERIF_KEEP_RUN") is None:
+        # logs of failing stages were copied to replays/
         shutil.rmtree(rundir, ignore_errors=True)
-    elif os.environ.get("VERIF_KEEP_RUN") is None:
-        # keep logs (already copied to replays/) but drop the bulky fragments
-        shutil.rmtree(os.path.join(rundir, "ev"), ignore_errors=True)
     return status
 
 
